@@ -143,12 +143,14 @@ def V(viol, pred, **d):
 
 def run_repro(case, viol, obs):
     fp0 = None
+    # the two runs start from differently poisoned heaps (freed NumPy blocks full of NaN vs full of zeros): a read of
+    # uninitialised memory (np.empty) makes them differ
     with EntropyGuard() as g:
-        r1 = TW.run_points(case)
+        r1 = TW.run_points(case, poison=float("nan"))
     if r1["crash"]:
         return "crash:" + r1["crash"]
     ub = r1.get("user_box")
-    r2 = TW.run_points(case)
+    r2 = TW.run_points(case, poison=[0.0, float("inf"), -1.0][case.get("np_seed", 0) % 3])
     obs["points_compared"] += len(r1["points"]) + 1
     obs["twin_runs"] += 1
     d = TW.first_diff(r1["points"], r2["points"])
